@@ -96,12 +96,23 @@ def _pre(rec, i):
     return {"disk": [a] * 6, "tree": [a] * 6, "fs": [{"k": "none", "x": False}] * 6, "sparse": [[]]}
 
 
-def wc_signature(rec, verdict):
+def owners(rec, verdict, step):
+    """Properties that own a verdict.  Every verdict has one owner (OWNER); what a Snapshot does
+    while sparse patterns are in force is also C27's business ("a snapshot never records
+    out-of-pattern paths as deleted")."""
+    own = {OWNER[verdict]}
+    if rec.get("op") == "wc" and step is not None and rec["steps"][step]["a"] == "Snapshot":
+        if _pre(rec, step)["sparse"] != [[]]:
+            own.add("C27")
+    return own
+
+
+def wc_signature(rec, verdict, step=None):
     """Structural signature of a violation.  Panics get the shape of the pre-state (the known
-    findings F1-F3 of spec/WorkingCopy.tla); a panic of any other shape gets ':other'."""
+    findings F1-F5 of spec/WorkingCopy.tla); a panic of any other shape gets ':other'."""
     if not verdict.startswith("Panic:") or rec.get("op") != "wc" or not rec["obs"]:
         return verdict
-    i = len(rec["obs"]) - 1
+    i = len(rec["obs"]) - 1 if step is None else step
     st, pre, msg = rec["steps"][i], _pre(rec, i), rec["obs"][i].get("msg", "")
     kind = lambda v: v["k"]
     if verdict == "Panic:SetSparse":
@@ -261,15 +272,16 @@ def run_wc(ctx, prop, mc_cfgs, neg_cfgs, gen_cfgs, n_random, focus, script_len=1
     nt = NONTRIVIAL[prop]
     ctx.cov["distinct_nontrivial"] += len({json.dumps(r, sort_keys=True) for r in recs if nt(r)})
     other = {}
-    for idx, verdict in j["bad"]:
+    for idx, verdict_at in j["bad"]:
         r = recs[idx]
+        verdict, _, at = verdict_at.partition("@")
+        step = int(at) - 1 if at else None
         if verdict.startswith("harness:"):
-            raise vf.ToolError("harness produced a malformed record %d: %s %s" % (idx, verdict, json.dumps(r)[:1500]))
-        own = OWNER.get(verdict)
-        if own is None:
+            raise vf.ToolError("harness produced a malformed record %d: %s %s" % (idx, verdict_at, json.dumps(r)[:1500]))
+        if verdict not in OWNER:
             raise vf.ToolError("verdict without owner: %s" % verdict)
-        if own == prop:
-            ctx.violation(wc_signature(r, verdict), verdict, r)
+        if prop in owners(r, verdict, step):
+            ctx.violation(wc_signature(r, verdict, step), verdict, r, detail={"step": at})
         else:
             other[verdict] = other.get(verdict, 0) + 1
     ctx.cov["verdicts_owned_by_other_properties"] = other
